@@ -5,7 +5,9 @@ patch="$1"; prop="$2"; tier="${3:-quick}"
 cd /repo || exit 9
 if [ -n "$(git status --porcelain --untracked-files=no)" ]; then echo "repo dirty"; exit 9; fi
 git apply "$patch" || { echo "patch does not apply"; exit 9; }
+cp /verif/evidence/$prop.json /verif/work/evidence-$prop.bak 2>/dev/null
 cd /verif && ./check "$prop" "$tier" > /verif/work/mutest.out 2>&1; rc=$?
+cp /verif/work/evidence-$prop.bak /verif/evidence/$prop.json 2>/dev/null; rm -f /verif/replays/$prop-*.json
 git -C /repo checkout -- . 
 grep -E "^(VIOLATION|KNOWN|INCONCLUSIVE|C[0-9]+ )|kind=" /verif/work/mutest.out | head -12
 echo "exit=$rc"
